@@ -51,8 +51,8 @@ ASSUMPTIONS = [
     'entries of a `meta` keyword other than index_in_batch must reach the operation unchanged',
 ]
 CONFIG = {
-    'quick': {'shards': 16, 'cases': 400, 'timeout': 600, 'floor': 1280},
-    'thorough': {'shards': 32, 'cases': 6000, 'timeout': 3000, 'floor': 38000},
+    'quick': {'shards': 16, 'cases': 1200, 'timeout': 600, 'floor': 3840},
+    'thorough': {'shards': 32, 'cases': 12000, 'timeout': 5400, 'floor': 76000},
 }
 REQUIRED = ['vec_calls', 'vec_rows_checked', 'vec_model_runs', 'vec_second_use', 'dtype_false', 'dtype_explicit',
             'auto_constants', 'masked_constants', 'masked_array_len_eq_batch', 'batch_from_inputs', 'batch_from_batch_size',
